@@ -52,6 +52,10 @@ def compare_interactions(spec, written, model, clause_prefix="links"):
 
 
 def check(spec, ctx):
+    pre = mdl.expected(spec)
+    if pre.invalid:
+        from .core import Reject
+        raise Reject(pre.invalid)
     run, written = gpcheck.execute(spec, ctx, clause="links")
     model = mdl.expected(spec)
     if model.undetermined:
